@@ -278,6 +278,8 @@ template <class F> Segment c13Segment(long nQ, long nT) {
             const int dist = style == 1 ? int(tbx::D_ONELEAF) : style == 2 ? int(tbx::D_BOXFACES) : style == 3 ? int(tbx::D_FACES) : int(tbx::D_UNIFORM);
             std::vector<std::array<Real, D>> prev;
             const auto before = tbx::leafOfParticle<D>(tree, N);
+            // histories of queries: look cells and leaves up before the move and again after the rebuild on the same tree object
+            { vh::Rng rq(vh::mix(seed ^ 0x16B, uint64_t(kk) * 16 + uint64_t(cyc))); checkLookups<F>(tree, in.geo.H, rq, true, res, "c16-before-rebuild"); }
             tree.applyToAllLeaves([&](auto& hdr, const long* idx, auto&& data, auto&&) {
                 for (long p = 0; p < hdr.nbParticles; ++p) {
                     if (!r.coin(frac)) continue;
@@ -315,6 +317,7 @@ template <class F> Segment c13Segment(long nQ, long nT) {
                 if ((m && !tbx::allZero(m->get())) || (l && !tbx::allZero(l->get()))) res.fail(tag + ":expansions-not-reset", "level " + vh::str(L) + " cell " + vh::astr(hdr.boxCoord));
             });
             checkExports<F>(tree, current, res, "c17-after-rebuild");
+            { vh::Rng rq(vh::mix(seed ^ 0x16A, uint64_t(kk) * 16 + uint64_t(cyc))); checkLookups<F>(tree, in.geo.H, rq, true, res, "c16-after-rebuild"); }
             // one more execution adds exactly one more full interaction (counting kernel: N-1 per particle)
             if constexpr (F::NRHS > 0 && std::is_arithmetic<typename F::Rhs>::value) {
                 TbfAlgorithm<Real, TbfTestKernel<Real, typename F::Space>, typename F::Space> algo(cfg, F::Space::IsPeriodic ? 1 : 2);
@@ -377,6 +380,8 @@ template <class F> Segment c13TsmSegment(long nQ, long nT) {
                     }
                 };
             };
+            { vh::Rng rq(vh::mix(seed ^ 0x16D, uint64_t(kk) * 16 + uint64_t(cyc))); SrcView<TT> qs{tt}; TgtView<TT> qt{tt};
+              checkLookups<SrcFlavour<F>>(qs, in.geo.H, rq, true, res, "c16-tsm-source-before-rebuild"); checkLookups<F>(qt, in.geo.H, rq, true, res, "c16-tsm-target-before-rebuild"); }
             if (r.coin(0.8)) tt.applyToAllLeavesSource(mover(curS));
             if (r.coin(0.8)) tt.applyToAllLeavesTarget(mover(curT));
             tt.rebuild();
@@ -406,6 +411,8 @@ template <class F> Segment c13TsmSegment(long nQ, long nT) {
             });
             tt.applyToAllCellsSource([&](long L, auto& hdr, auto& m, auto&) { if (m && !tbx::allZero(m->get())) res.fail("c13-tsm-source:expansions-not-reset", "level " + vh::str(L) + " cell " + vh::astr(hdr.boxCoord)); });
             tt.applyToAllCellsTarget([&](long L, auto& hdr, auto&, auto& l) { if (l && !tbx::allZero(l->get())) res.fail("c13-tsm-target:expansions-not-reset", "level " + vh::str(L) + " cell " + vh::astr(hdr.boxCoord)); });
+            { vh::Rng rq(vh::mix(seed ^ 0x16E, uint64_t(kk) * 16 + uint64_t(cyc)));
+              checkLookups<SrcFlavour<F>>(sv, in.geo.H, rq, true, res, "c16-tsm-source-after-rebuild"); checkLookups<F>(tv, in.geo.H, rq, true, res, "c16-tsm-target-after-rebuild"); }
             checkExports<SrcFlavour<F>>(sv, curS, res, "c17-tsm-source-after-rebuild");
             checkExports<F>(tv, curT, res, "c17-tsm-target-after-rebuild");
             if constexpr (F::NRHS > 0 && std::is_arithmetic<typename F::Rhs>::value) {
